@@ -1,7 +1,7 @@
 """X01 - specification coverage BEYOND the listed properties (not registered in MANIFEST.json; `./check X01`).
 The specifications keep growing to cover more of numqi's behaviour; parts that belong to none of C01..C20 are decided here, so
 that a defect in them can never be reported against a listed property.
-specs: specs/extra/{MC_Qudit,MC_SymplecticGS,MC_PauliOrbit,MC_SymBasis,MC_SchurWeyl}.tla"""
+specs: specs/extra/{MC_Qudit,MC_SymplecticGS,MC_PauliOrbit,MC_SymBasis,MC_SchurWeyl,MC_GroupMisc}.tla"""
 import itertools, math, random
 import numpy as np
 from .. import tlc, core
@@ -249,6 +249,82 @@ def run_schurweyl(ctx, quick):
             ctx.violation('X01:schurweyl:exception', type(ex).__name__ + ': ' + str(ex)[:160], data)
 
 
+def run_groupmisc(ctx, quick):
+    """MC_GroupMisc: cycle notation, conjugate partitions, totient / primality, Young symmetrizers"""
+    import numqi
+    elems = lambda v: list(v[1]) if isinstance(v, tuple) else list(v)
+    G = numqi.group
+    r = tlc.run('extra/MC_GroupMisc.tla', 'extra/MC_GroupMisc.cfg', dump=True, timeout=1200)
+    ctx.add_model('MC_GroupMisc', r)
+    for st in tlc.parse_dump(r):
+        kind, o = st['kind'], st['obj']
+        try:
+            if kind == 'perm':
+                p = tuple(o['p'])
+                ctx.case(('perm', p))
+                cyc = G.permutation_to_cycle_notation(p)
+                want = {frozenset(elems(x)) for x in elems(o['orbits'])}
+                ok = {frozenset(c) for c in cyc} == want and sum(len(c) for c in cyc) == len(p) and all(p[c[i]] == c[(i + 1) % len(c)] for c in cyc for i in range(len(c)))
+                if not ok:
+                    ctx.violation('X01:permutation_to_cycle_notation', 'cycles %s are not the orbits of %s traversed along the permutation' % (cyc, p), dict(perm=list(p)))
+            elif kind == 'partition':
+                sh = tuple(o['sh'])
+                ctx.case(('partition', sh))
+                got = [int(x) for x in G.get_young_diagram_transpose(sh)]
+                mask = np.asarray(G.get_young_diagram_mask(sh)).astype(int)
+                if got != list(o['conj']) or mask.sum(axis=1).tolist() != list(sh) or mask.sum(axis=0).tolist() != list(o['conj']):
+                    ctx.violation('X01:get_young_diagram_transpose', 'conjugate partition / mask of %s differ from the specification (%s)' % (sh, list(o['conj'])), dict(shape=list(sh)))
+                G.check_young_diagram(sh)
+                if len(sh) >= 2 and sh[0] > sh[-1]:
+                    try:
+                        G.check_young_diagram(tuple(reversed(sh)))
+                        ctx.violation('X01:check_young_diagram', 'an increasing sequence %s passes as a Young diagram' % (tuple(reversed(sh)),), dict(shape=list(reversed(sh))))
+                    except AssertionError:
+                        pass
+            elif kind == 'number':
+                n = o['n']
+                ctx.case(('number', n))
+                if int(G.hf_Euler_totient(n)) != o['phi'] or bool(G.hf_is_prime(n)) != o['prime']:
+                    ctx.violation('X01:hf_Euler_totient/hf_is_prime', 'totient / primality of %d differ from the specification' % n, dict(n=n))
+            else:
+                sh = tuple(o['sh'])
+                ctx.case(('symmetrizer', sh))
+                terms = {(tuple(t[0]), t[1]) for t in elems(o['terms'])}
+                tabs = np.asarray(G.get_all_young_tableaux(sh))
+                mask = np.asarray(G.get_young_diagram_mask(sh)).astype(bool)
+                for ti, T in enumerate(tabs[:6]):
+                    op, sg = G.young_tableau_to_young_symmetrizer(sh, T)
+                    got = {(tuple(int(x) for x in a), int(b)) for a, b in zip(np.asarray(op), np.asarray(sg))}
+                    sigma = [int(x) for x in T[mask]]               # label of the box that carries label i in the first tableau
+                    inv = np.argsort(sigma)
+                    want = {(tuple(int(sigma[t[int(inv[i])]]) for i in range(len(sigma))), s_) for t, s_ in terms}
+                    if got != want or len(op) != len(terms):
+                        ctx.violation('X01:young_tableau_to_young_symmetrizer', 'terms of the Young symmetrizer of shape %s, tableau %d differ from sum_q sum_p sign(q) q.p of the specification' % (sh, ti), dict(shape=list(sh), tableau=ti))
+                        break
+            ctx.traces += 1
+        except Exception as ex:
+            ctx.violation('X01:groupmisc:exception', type(ex).__name__ + ': ' + str(ex)[:160], dict(kind=kind))
+    # group algebra product on the Cayley tables of the library: (sum a_g g)(sum b_h h) = sum a_g b_h gh
+    rng = np.random.default_rng(ctx.seed + 3)
+    for name, tab in [('S3', G.get_symmetric_group_cayley_table(3)), ('D4', G.get_dihedral_group_cayley_table(4)), ('Q8', G.get_quaternion_cayley_table()), ('C5', G.get_cyclic_group_cayley_table(5))]:
+        tab = np.asarray(tab)
+        n = len(tab)
+        ctx.case(('algebra', name))
+        for shape in [(n,), (3, n)]:
+            a, b = rng.integers(-3, 4, size=shape), rng.integers(-3, 4, size=shape)
+            want = np.zeros(shape, dtype=np.int64)
+            for g in range(n):
+                for h in range(n):
+                    want[..., tab[g, h]] += a[..., g] * b[..., h]
+            try:
+                got = G.group_algebra_product(a, b, tab)
+                got2 = G.group_algebra_product(a, b, G.get_index_cayley_table(tab), use_index=True)
+                if not np.array_equal(np.asarray(got), want) or not np.array_equal(np.asarray(got2), want):
+                    ctx.violation('X01:group_algebra_product', 'product in the group algebra of %s differs from sum a_g b_h [gh]' % name, dict(group=name, shape=list(shape)))
+            except Exception as ex:
+                ctx.violation('X01:group_algebra_product:exception', type(ex).__name__ + ': ' + str(ex)[:160], dict(group=name))
+
+
 def run(ctx):
     quick = ctx.tier == 'quick'
     ctx.rule = ('beyond the listed properties: Weyl-Heisenberg matrices d = 2, 4, 8 (commutation, order, Fourier relation as TLC invariants); symplectic Gram-Schmidt over F2 for every list of '
@@ -261,6 +337,7 @@ def run(ctx):
     run_pauli_orbit(ctx, quick)
     run_symbasis(ctx, quick)
     run_schurweyl(ctx, quick)
+    run_groupmisc(ctx, quick)
     ctx.sample(dict(kind='extra-models', models=[m['model'] for m in ctx.models]))
 
 
